@@ -123,9 +123,10 @@ class Run(object):
                 self.viol.append(('creating-command-not-sent', kind, 'pending %r' % (pend,)))
             # reference
             self.reply = False
-            self.attempted = set()
+            self.attempted = set()    # upload attempts of S: (directory, n-th attempt to it)
             self.ok = set()
             self.failed = set()
+            self.nth = {}
             self.pre_reply_S_events = False
             self.want = None          # None | 'ok' | 'err'
             self.f_track = {}
@@ -182,11 +183,12 @@ class Run(object):
                 if not self.reply:
                     self.pre_reply_S_events = True
                 if kind == 'U':
-                    self.attempted.add(dnum)
+                    self.nth[dnum] = self.nth.get(dnum, 0) + 1
+                    self.attempted.add((dnum, self.nth[dnum]))
                 elif kind == 'OK':
-                    self.ok.add(dnum)
+                    self.ok.add((dnum, self.nth.get(dnum, 0)))
                 else:
-                    self.failed.add(dnum)
+                    self.failed.add((dnum, self.nth.get(dnum, 0)))
         # --- reference verdict for this step
         if self.want is None and self.reply and not self.pre_reply_S_events:
             if self.await_all:
@@ -273,9 +275,19 @@ class Run(object):
                 'HS_DESC' in self.impl.proto.events)
 
 
-def enabled(history, ndirs):
+def retry_for(kind, tier):
+    """services whose failed upload to a directory Tor tries once more"""
+    if kind.endswith('-auth'):
+        return () if tier == 'quick' else ('S',)
+    if tier == 'quick':
+        return ('S',) if kind == 'ephemeral' else ()
+    return ('S', 'F')
+
+
+def enabled(history, ndirs, retry=()):
     """events the reference environment can emit next"""
     status = {}
+    tries = {}
     reply = False
     dead = False
     for ev in history:
@@ -285,7 +297,9 @@ def enabled(history, ndirs):
             dead = True
         else:
             k, x, d = ev
-            status[(x, d)] = {'U': 'started', 'OK': 'done', 'FAIL': 'done'}[k]
+            status[(x, d)] = {'U': 'started', 'OK': 'done', 'FAIL': 'failed'}[k]
+            if k == 'U':
+                tries[(x, d)] = tries.get((x, d), 0) + 1
     out = []
     if dead:
         return out
@@ -301,6 +315,8 @@ def enabled(history, ndirs):
             elif st == 'started':
                 out.append(('OK', x, d))
                 out.append(('FAIL', x, d))
+            elif st == 'failed' and x in retry and tries[(x, d)] < 2:
+                out.append(('U', x, d))         # Tor tries that directory again
     return out
 
 
@@ -366,7 +382,11 @@ def tasks(tier, seed):
     # our service alone with 4 directories (thorough: both kinds)
     for kind in (('ephemeral',) if tier == 'quick' else ('ephemeral', 'filesystem')):
         for await_all in (False, True):
-            out.append((kind, await_all, 4, 'solo'))
+            if tier == 'quick':
+                out.append((kind, await_all, 3, 'solo'))             # one retry per directory
+                out.append((kind, await_all, 4, 'solo-noretry'))
+            else:
+                out.append((kind, await_all, 4, 'solo'))
     return out
 
 
@@ -381,7 +401,7 @@ def run_task(param, acc):
                 for clause, feat, detail in r['viol']:
                     acc.violation('%s/%s' % (clause, feat), detail, dict(kind='refused', case=i, await_all=aa), cost=i)
         return
-    solo = first == 'solo'
+    solo = first in ('solo', 'solo-noretry')
     seen = set()
     if solo:
         start = (('reply',),)
@@ -390,8 +410,10 @@ def run_task(param, acc):
 
     slim = kind.endswith('-auth') and acc.tier == 'quick'
 
+    retry = retry_for(kind, acc.tier) if not solo else (('S',) if first == 'solo' else ())
+
     def en(h):
-        e = enabled(h, nd)
+        e = enabled(h, nd, retry)
         if solo:
             e = [x for x in e if len(x) == 1 or x[1] == 'S']
         if slim:
@@ -489,8 +511,9 @@ def meta(tier):
              'ended the creation a second service is created and completed on the same connection (the first one must stay silent, '
              'nothing may stay subscribed); plus %d creations the library itself refuses (line breaks in the key, key type '
              'contradicting the version). non-trivial = at least two events' % (nd, len(REFUSED)),
-        bounds=dict(services=2, shared_directories=nd, solo_directories=4, modes=['first-upload', 'await-all'], kinds=list(KINDS)),
+        bounds=dict(services=2, shared_directories=nd, solo_directories=4, retries_per_directory=1, solo_directories_with_retry=(3 if tier == 'quick' else 4), modes=['first-upload', 'await-all'], kinds=list(KINDS)),
         assumptions=['Tor cannot report uploads of a service before it answered the command that creates it; histories where it does '
                      'are checked for the safety clauses only (never completes before the reply, never without an own UPLOADED)',
-                     '"fails if every attempted upload failed" is evaluated after each event over the uploads attempted so far',
+                     '"fails if every attempted upload failed" is evaluated after each event over the upload attempts seen so far; '
+                     'an attempt is one UPLOAD event (Tor may try a directory again after a FAILED: one retry per directory is explored)',
                      'the filesystem service\'s hostname file is written by the simulated Tor when it accepts the SETCONF'])
